@@ -220,5 +220,7 @@ def check(ctx, rep):
     from . import C20
     C20.empty_vs_absent(ctx, rep, 'C07f')
     effects(ctx, rep, 'C07g')
+    from .common import value_preserving_rule
+    value_preserving_rule(ctx, rep, 'C07a', ('peptacular.proforma.proforma_dataclasses', 'peptacular.proforma.proforma_parser', 'peptacular.proforma.input_convert', 'peptacular.digestion'))
     from .common import memo_rule
     memo_rule(ctx, rep, 'C07h', ('peptacular.digestion', 'peptacular.spans'))
